@@ -1,6 +1,4 @@
 CONSTANTS
-  Types <- TypesAllF
-  MaxSet = 3
+  Thorough = TRUE
 SPECIFICATION Spec
-INVARIANT Emit
 CHECK_DEADLOCK FALSE
